@@ -104,7 +104,7 @@ def run_sessions(outcome, tier, seed):
             if m == "reader":
                 call["sched"] = corpus.random_sched(rng)
             reqs.append({"id": len(reqs), "to": t, "calls": [call]})
-    resps = common.harness_batch(reqs, timeout=2400)
+    resps = common.harness_batch(reqs, timeout=2400, stall=60)
     hist = {}
     for req, resp in zip(reqs, resps):
         r = shared.session_result(resp)
@@ -115,7 +115,8 @@ def run_sessions(outcome, tier, seed):
                                             "mode": c["mode"], "sched": c.get("sched"), "input_hex": c["input"][:4000], "input_len": len(c["input"]) // 2})
     outcome.evaluations += len(reqs)
     outcome.distinct_nontrivial += len(reqs)
-    outcome.extra["mutation_fuzz"] = {"inputs": len(inputs), "translations": len(reqs), "verdicts": hist}
+    outcome.extra["mutation_fuzz"] = {"inputs": len(inputs), "translations": len(reqs), "verdicts": hist,
+                                      "longest_wait_for_an_answer_s": round(common.BATCH_STATS["max_gap_s"], 2)}
 
 
 def run_binary(outcome, tier, seed):
@@ -167,6 +168,8 @@ def run(outcome, tier, seed):
         outcome.evaluations += st["cases"] * 2
         outcome.extra["token_sequences"] = {"sequences": st["cases"], "max_length": st["max_len"], "panics": len(st["panics"])}
         outcome.extra["exhaustive"] = True
+    if outcome.hooks_available:
+        shared.msgpack_correspondence(outcome, tier, seed, oracle=False)
     run_sessions(outcome, tier, seed)
     run_binary(outcome, tier, seed)
     outcome.add_sample({"shape": "[" * 20 + "... (100000 deep)", "formats": "json/yaml/toml/msgpack", "expect": "error value, no crash"})
